@@ -135,6 +135,8 @@ impl<L: Localize> OpeningHours<L> {
     pub fn schedule_at(&self, date: NaiveDate) -> Schedule {
         #[cfg(test)]
         crate::tests::stats::notify::generated_schedule();
+        #[cfg(oh_verif)]
+        ::oh_verif_rt::probe("schedule_at:entry");
 
         if !(DATE_START.date()..DATE_END.date()).contains(&date) {
             return Schedule::default();
@@ -425,6 +427,8 @@ impl<L: Localize> TimeDomainIterator<L> {
 
                 assert!(next_change_hint > self.curr_date, "infinite loop detected");
                 self.curr_date = next_change_hint;
+                #[cfg(oh_verif)]
+                ::oh_verif_rt::probe("consume_until_next_kind:day_jump");
 
                 if self.curr_date <= self.end_datetime.date() && self.curr_date < DATE_END.date() {
                     self.curr_schedule = self
